@@ -886,6 +886,9 @@ func (b *Block) GetPointLabels(pts []dvid.Point3d) []uint64 {
 				index |= uint16(b.SBValues[bytepos+1])
 				index >>= uint(16 - bithead - bits)
 			}
+			if index >= numSBLabels {
+				continue // packed index outside this sub-block's label list (malformed block)
+			}
 			label := b.Labels[b.SBIndices[indexPos+uint32(index)]]
 			results[pti.index] = label
 		}
@@ -1563,6 +1566,9 @@ func (b *Block) Value(pos dvid.Point3d) uint64 {
 	x, y, z := pos[0]%SubBlockSize, pos[1]%SubBlockSize, pos[2]%SubBlockSize
 	bitPos += uint32(z*SubBlockSize*SubBlockSize+y*SubBlockSize+x) * bits
 	val := getPackedValue(b.SBValues, bitPos, bits)
+	if val >= n {
+		return 0 // packed index outside this sub-block's label list (malformed block)
+	}
 	index := b.SBIndices[idxPos+int(val)]
 	return b.Labels[index]
 }
@@ -1890,6 +1896,26 @@ func (b *Block) setExportedVars() (err error) {
 
 	pos += subBlockIndexBytes
 	b.SBValues = b.data[pos:]
+
+	// The index lists and packed values are untrusted as well: every label index must address the label
+	// table and the packed values must be long enough for the declared sub-block label counts.
+	for _, index := range b.SBIndices {
+		if index >= numLabels {
+			return fmt.Errorf("block has sub-block label index %d but only %d labels", index, numLabels)
+		}
+	}
+	var valueBits uint64
+	for _, num := range b.NumSBLabels {
+		if num > 1 {
+			valueBits += uint64(bitsFor(num)) * SubBlockSize * SubBlockSize * SubBlockSize
+			if valueBits%8 != 0 {
+				valueBits += 8 - (valueBits % 8)
+			}
+		}
+	}
+	if valueBits/8 > uint64(len(b.SBValues)) {
+		return fmt.Errorf("block declares %d bytes of packed sub-block values but only %d bytes are present", valueBits/8, len(b.SBValues))
+	}
 	return
 }
 
